@@ -444,7 +444,7 @@ func Replay(scenario string, raw json.RawMessage) []*mc.Violation {
 	switch {
 	case strings.HasPrefix(scenario, "D-"):
 		var in ReuseIn
-		if json.Unmarshal(raw, &in) == nil {
+		if mc.UnmarshalInput(raw, &in) == nil {
 			if v := checkReuse(scenario, in); v != nil {
 				return []*mc.Violation{v}
 			}
@@ -452,25 +452,25 @@ func Replay(scenario string, raw json.RawMessage) []*mc.Violation {
 		return nil
 	case strings.HasPrefix(scenario, "A-"):
 		var rt RTIn
-		if json.Unmarshal(raw, &rt) == nil && rt.Text != "" {
+		if mc.UnmarshalInput(raw, &rt) == nil && rt.Text != "" {
 			return checkRT(scenario, rt)
 		}
 		var in PartsIn
-		if json.Unmarshal(raw, &in) == nil {
+		if mc.UnmarshalInput(raw, &in) == nil {
 			if v := checkParts(scenario, in); v != nil {
 				return []*mc.Violation{v}
 			}
 		}
 	case strings.HasPrefix(scenario, "B-"):
 		var in RejectIn
-		if json.Unmarshal(raw, &in) == nil {
+		if mc.UnmarshalInput(raw, &in) == nil {
 			if v := checkReject(scenario, in); v != nil {
 				return []*mc.Violation{v}
 			}
 		}
 	default:
 		var in RTIn
-		if json.Unmarshal(raw, &in) == nil {
+		if mc.UnmarshalInput(raw, &in) == nil {
 			return checkRT(scenario, in)
 		}
 	}
